@@ -62,16 +62,15 @@ pub fn validate_tag_path<T: EbmlSpecification<T> + EbmlTag<T> + Clone>(tag_id: u
                 path_marker += 1;
             },
             PathPart::Global((min, max)) => {
-                global_counter += 1;
-                if max.is_some() && global_counter > max.unwrap_or_default() {
-                    return false;
-                }
-                if path.len() > (path_marker + 1) && matches!(path[path_marker + 1], PathPart::Id(id) if id == current_node_id) {
-                    if min.is_some() && global_counter < min.unwrap_or_default() {
-                        return false;
-                    }
+                // The named parent that follows the placeholder ends it (once the minimum is met) and is not itself counted against the placeholder's bounds
+                if path.len() > (path_marker + 1) && matches!(path[path_marker + 1], PathPart::Id(id) if id == current_node_id) && global_counter >= min.unwrap_or(0) {
                     path_marker += 2;
                     global_counter = 0;
+                } else {
+                    global_counter += 1;
+                    if max.is_some() && global_counter > max.unwrap_or_default() {
+                        return false;
+                    }
                 }
             },
         }
